@@ -5,9 +5,10 @@ RFC parsers of quicparse.py; nothing is taken from the implementation's own even
 import quicparse as qp
 
 ATTACKER = "10.66.66.66:6666"
+SPOOFER = "10.77.77.77:7777"      # source address of genuine client datagrams re-sent from elsewhere (`spoof_pm`)
 U32 = 2**32 - 1
 # actions of records that were put on the wire by the adversary, not by the endpoint named in `src`
-FORGED = ("replay", "inject", "dup")
+FORGED = ("replay", "inject", "dup", "spoof")
 
 
 def _kinds(head, length):
@@ -57,24 +58,45 @@ def _run(tr):
         elif w.src == server and w.action not in FORGED:
             ev.append((w.t, 1, w.idx, "tx", w))
     ev.sort(key=lambda e: (e[0], e[1], e[2]))
+    # addresses that appear later in the connection (client rebinding / migration, spoofed copies) are validated by
+    # path validation only: the server has processed a PATH_RESPONSE in a datagram that arrived from that address
+    # (RFC 9000 §8.2, §9.3). `rxp` records are the packets the server decrypted and processed (packet interceptor).
+    path_resp_at = set()
+    for r in tr.recs:
+        if r.kind == "rxp" and r.ep == "s" and any(f["type"] == "PATH_RESPONSE" for f in r.frames):
+            path_resp_at.add(r.t)
+    # the server confirms the handshake when it sends HANDSHAKE_DONE; until then s2n-quic attributes every datagram
+    # of the connection to the initial path whatever its source address (path/manager.rs on_datagram_received)
+    hs_done = min([r.t for r in tr.recs if r.kind == "txp" and r.ep == "s" and any(f["type"] == "HANDSHAKE_DONE" for f in r.frames)] + [10**18])
+    conn_recv = 0       # bytes received from any address that is not the stray attacker's
     st = {}     # peer address -> dict(sent, recv, sat, validated, unknown)
     for t, _, _, kind, w in ev:
         peer = w.src if kind == "rx" else w.dst
         s = st.setdefault(peer, {"sent": 0, "recv": 0, "sat": 0, "validated": False})
         if kind == "rx":
             s["recv"] += w.len
+            if peer != ATTACKER:
+                conn_recv += w.len
             s["sat"] = min(s["sat"] + 3 * w.len, U32)
             kinds, complete = _kinds(w.head, w.len)
-            # a Handshake packet reaching the server validates the address (long-header type bits are not protected);
-            # when the record does not show the whole datagram we cannot rule one out: stop checking (lenient)
-            if "handshake" in kinds or "short" in kinds[:1] or (not complete and "garbage" not in kinds[:1]):
-                if peer != ATTACKER:
+            if peer == client:
+                # a Handshake packet reaching the server validates the address (long-header type bits are not protected);
+                # when the record does not show the whole datagram we cannot rule one out: stop checking (lenient)
+                if "handshake" in kinds or "short" in kinds[:1] or (not complete and "garbage" not in kinds[:1]):
+                    s["validated"] = True
+            elif peer not in (ATTACKER, SPOOFER):
+                if w.at in path_resp_at and w.action not in FORGED:
                     s["validated"] = True
         else:
             n = w.orig
             if not s["validated"]:
                 if s["sent"] >= 3 * s["recv"]:
-                    if s["sat"] > 0:
+                    if t <= hs_done and peer == client and s["sent"] < 3 * conn_recv:
+                        bad.append(("e2e:c11:amplification:credit-from-other-address-in-handshake",
+                                    f"server started a {n}-byte datagram to {peer} at {w.t}us with {s['sent']} bytes already sent and only "
+                                    f"{s['recv']} received from that address (3x = {3 * s['recv']}); the handshake is not confirmed and the "
+                                    f"server credited datagrams that arrived from OTHER source addresses ({conn_recv - s['recv']} bytes) to this path"))
+                    elif s["sat"] > 0:
                         bad.append(("e2e:c11:amplification:after-overshoot",
                                     f"server started a {n}-byte datagram to {peer} at {w.t}us with {s['sent']} bytes already sent and "
                                     f"{s['recv']} received (3x = {3 * s['recv']}) before the address was validated; an earlier overshooting "
@@ -89,6 +111,10 @@ def _run(tr):
                 cov["unvalidated_server_datagrams"] += 1
                 if s["sent"] >= 3 * s["recv"]:
                     cov["reached_limit"] += 1
+            elif not s["validated"] and peer != ATTACKER:
+                cov["unvalidated_new_path_datagrams"] = cov.get("unvalidated_new_path_datagrams", 0) + 1
+                if s["sent"] >= 3 * s["recv"]:
+                    cov["new_path_reached_limit"] = cov.get("new_path_reached_limit", 0) + 1
     # ------------------------------------------------------------------ client Initial datagrams are padded
     for w in wires:
         if w.src != client or w.action in FORGED or w.action.startswith("corrupt") or w.action.startswith("stray:"):
